@@ -35,7 +35,9 @@ TRUSTED = [
     "compared on every run with the generator's by-construction map and, on a sample, with llvm-tblgen-14)",
     "hand-written model of index.rs / index/scope.rs / index/context.rs / index/bang_operator.rs / symbol_map*.rs "
     "in coq/model/{Scope,BangOps,Indexer}.v, tied to the code by the correspondence run of this check "
-    "(goto_definition + references at every offset, diagnostics by (file, range, message class))",
+    "(goto_definition + references at every offset, diagnostics by (file, range, message class)) AND, for Core programs, by "
+    "translation + proof: the indexer functions of IndexerSource, all bang operators, scope.rs, context.rs and the goto / references "
+    "handlers (entries below); symbol_map/typ.rs (coq/model/Typ.v) and the accessor table remain trusted tables",
     "modelled contracts: id_arena (ids = allocation order), HashMap (finite map), indexmap::IndexMap (insertion "
     "order, re-insert keeps position), iset::IntervalMap (insert replaces on an equal interval, "
     "values_overlap in (start,end) order), rowan text ranges as produced by the real parser",
@@ -45,7 +47,7 @@ TRUSTED = [
     "the run, to be character for character what the observer harness/src/bin/coreast.rs reads off the REAL parse tree "
     "through the real typed accessors (a difference or a bridge unit that does not build is a broken tie): coreast.rs "
     "is therefore a cross-check, not part of the trusted base for Core programs; trusted instead: the translators "
-    "tools/translate/{t_tokens,t_lextables,t_unicode,t_lexer,t_grammar,t_ast}.py (re-run by this check; tied to the "
+    "tools/translate/{t_tokens,t_lextables,t_unicode,t_lexer,t_grammar,t_grammarcert,t_ast}.py (re-run by this check; tied to the "
     "code by C01/C02/C04/C15), the hand models of the 8 hand-written ast.rs methods in AstToCore.v, "
     "coq/extract/bridge_driver.ml",
     "observer harness/src/bin/idedump.rs, Coq extraction (ExtrOcamlBasic only), OCaml driver coq/extract/scope_driver.ml",
@@ -149,8 +151,8 @@ def run(ctx):
     t0 = time.time()
     bindir = vlib.build_harness(False, bins=BINS)
     fails = vlib.proof_step(ctx, "TG.Props.C05", THEOREMS, ["props/C05.vo"], TRUSTED,
-                            translators=sl.BRIDGE_TRANSLATORS + sl.INDEXER_TRANSLATORS)
-    sl.source_tie(ctx, fails)
+                            translators=sl.BRIDGE_TRANSLATORS + sl.INDEXER_TRANSLATORS + sl.HANDLER_TRANSLATORS)
+    sl.source_tie(ctx, fails, handlers=True)
     try:
         exe = vlib.build_model("scope")
     except vlib.BuildError as ex:
